@@ -291,6 +291,41 @@ class Fn:
                 out.append((c.bb, -1, c.t))
         return out
 
+    def field_mut_borrows(self, field_suffix):
+        """statements taking `&mut` (or a raw mut pointer) of a place ending in the given field."""
+        out = []
+        for i, j, s in self.stmts():
+            rv = s["rv"]
+            pl = rv.get("ref") if rv.get("mut") else None
+            if pl is None and rv.get("mut"):
+                pl = rv.get("rawptr")
+            if isinstance(pl, dict) and place_has_field(pl, field_suffix, last_only=True):
+                out.append((i, j, s))
+        return out
+
+    def copy_root(self, op, limit=20):
+        """follow single-definition copy/move chains of an operand back to its root local."""
+        pl = op.get("c", op.get("m")) if isinstance(op, dict) else None
+        if not isinstance(pl, int):
+            return pl if pl is None else json.dumps(pl, sort_keys=True)
+        l = pl
+        for _ in range(limit):
+            ds = self.defs().get(l, [])
+            if len(ds) != 1 or ds[0][0] != "stmt":
+                return l
+            rv = ds[0][3]["rv"]
+            src = rv.get("use")
+            if not isinstance(src, dict):
+                return l
+            sp = src.get("c", src.get("m"))
+            if isinstance(sp, int):
+                l = sp
+            elif sp is not None:
+                return json.dumps(sp, sort_keys=True)
+            else:
+                return l
+        return l
+
     # ------------------------------------------------------------ terms
     def term_of(self, operand, depth=12):
         return Terms(self).operand(operand, depth)
